@@ -178,6 +178,12 @@ func linGenFilters(r *common.Rand, ids []string) []common.JFilter {
 		case 6:
 			f.Tags = common.Ptr([]common.JTagCond{{Name: common.Pick(r, []string{"d", "t", "e"}), Vals: []string{common.Pick(r, []string{"x", "v", ids[0]})}}})
 		case 7:
+			if r.Bool() {
+				// two conditions, one of them single-valued (the candidates of one are cut down by the other)
+				f.Authors = common.Ptr([]string{common.Pick(r, []string{"pa", "pb"})})
+				f.Kinds = common.Ptr([]int64{common.Pick(r, []int64{1, 5, 30000, 10000})})
+				break
+			}
 			f.Since = common.Ptr(int64(r.Intn(5)))
 			if r.Chance(50) {
 				f.Until = common.Ptr(int64(1 + r.Intn(5)))
@@ -424,6 +430,9 @@ func linRun(c *linCase) {
 			op.N = cache.Len()
 		}
 		op.Resp = clock.Add(1)
+		if op.K == "find" && !common.FiltersIntact(fs, op.Fs) {
+			op.Panic = "the query rewrote the filters it was given"
+		}
 	}
 
 	// sequential prefix
